@@ -57,6 +57,10 @@ func (s FieldQueryString) Build() (*FieldQuery, error) {
 }
 
 func (s FieldQueryString) build(v reflect.Value) (*FieldQuery, error) {
+	if !v.IsValid() {
+		// a sub field query without fields ( {"name":null} ): the whole field
+		return &FieldQuery{}, nil
+	}
 	switch v.Type().Kind() {
 	case reflect.String:
 		return s.buildString(v)
